@@ -22,10 +22,12 @@
 (*   L   local variable, not at its last use (it is observed again later)  *)
 (*   M   local variable whose ONLY use as an operand is its last use: the  *)
 (*       compiler moves it into the callee; afterwards the alias is dead   *)
+(*   S   local variable that is assigned with set! (lives in a heap cell) *)
 (*   B   contents of a box            C   variable captured by a closure   *)
-(*   EL / EP / EV / EI / EH / ES   element of a list / car of a pair /     *)
-(*       slot of a mutable vector / of an immutable vector / value of a    *)
-(*       hash map / field of a struct instance                             *)
+(*   PR  value of a parameter object (make-parameter) inside parameterize  *)
+(*   EL / EP / EV / EI / EH / ES / EM   element of a list / car of a pair  *)
+(*       / slot of a mutable vector / of an immutable vector / value of a  *)
+(*       hash map / field of an immutable / of a mutable struct instance   *)
 (*   K   local of a frame captured by a continuation: the straight-line    *)
 (*       code may use it once (at its last use, so it is moved), and it is *)
 (*       still observed afterwards by RE-ENTERING the continuation         *)
@@ -43,7 +45,10 @@
 (*          through alias i; via = "d" the primitive is called directly,   *)
 (*          "f" through a helper function whose parameter is at its last   *)
 (*          use, "g" through a helper that observes its parameter AFTER    *)
-(*          the update, "k" directly, with a continuation captured while   *)
+(*          the update, "a" with (apply prim args) on an argument list     *)
+(*          that is observed afterwards, "m" with (map (lambda (p) ...))   *)
+(*          over a list that is observed afterwards, "k" directly, with a  *)
+(*          continuation captured while                                    *)
 (*          the operand is an evaluated temporary: the update runs twice   *)
 (*          (first with the alternative trailing argument `alt`, then -    *)
 (*          after re-entering the continuation - with the real one)        *)
@@ -66,7 +71,8 @@
 (*                                                                         *)
 (* Second family ("loop"): an accumulator is updated N times (one TLC step *)
 (* per iteration) while every EVERY-th version is saved; all saved         *)
-(* versions and the final one are observed afterwards.                     *)
+(* versions and the final one are observed afterwards, then each of them   *)
+(* is updated once more ("forks") and everything is observed again.        *)
 (*                                                                         *)
 (* ENUMERATION.  All histories of DEPTH actions after the first base, the  *)
 (* holder kind of the first action drawn from KINDS1, of the later ones    *)
@@ -96,7 +102,7 @@ CONSTANTS FAMS,       \* subset of {"alias", "loop"}
           KINDSR,     \* ... by the later actions
           KEEP1, KEEP2, KEEPR,   \* per-mille of the choices of the 1st / 2nd / later actions that are explored
           SEED,
-          VIAS,       \* subset of {"d", "f", "g", "k"}
+          VIAS,       \* subset of {"d", "f", "g", "a", "m", "k"}
           ACTS,       \* subset of {"base", "share", "upd", "upd2", "reobs"}
           MAXBASE, MAXLEN,
           LOOPN, LOOPEVERY, LOOPSTYLES
@@ -188,31 +194,33 @@ Obs(c) == [q |-> ObsQ(c), exp |-> ObsE(c)]
 Op(o, a, b, alt) == [o |-> o, a |-> a, b |-> b, alt |-> alt]
 NoOp == Op("-", 0, 0, 0)
 
-HashOps(c) == LET n == Cardinality(c.e) IN
-     (IF n < MAXLEN THEN {Op("ins", 30, 3, 77), Op("ins", 11, 1, 77)} ELSE {})
+\* The elements / values an operation inserts are different for every action number m (90 + m, 30 + m ...), so
+\* that two updates of the same object at different steps are distinguishable.
+HashOps(c, m) == LET n == Cardinality(c.e) IN
+     (IF n < MAXLEN THEN {Op("ins", 30 + m, 3, 770 + m), Op("ins", 110 + m, 1, 770 + m)} ELSE {})
   \cup {Op("rem", 1, 0, 2), Op("rem", 4, 0, 2), Op("unionL", 1, 0, 0), Op("clear", 0, 0, 0)}
   \cup (IF n + 2 <= MAXLEN THEN {Op("unionR", 1, 0, 2)} ELSE {})
-HsetOps(c) == LET n == Cardinality(c.e) IN
-     (IF n < MAXLEN THEN {Op("ins", 3, 0, 4), Op("ins", 1, 0, 4)} ELSE {})
+HsetOps(c, m) == LET n == Cardinality(c.e) IN
+     (IF n < MAXLEN THEN {Op("ins", 30 + m, 0, 770 + m), Op("ins", 1, 0, 770 + m)} ELSE {})
   \cup {Op("clear", 0, 0, 0)}
   \cup (IF n + 2 <= MAXLEN THEN {Op("unionR", 1, 0, 2)} ELSE {})
-IvecOps(c) == LET n == Len(c.s) IN
-     (IF n < MAXLEN THEN {Op("push", 9, 0, 77), Op("pushf", 9, 0, 77)} ELSE {})
-  \cup (IF n > 0 THEN {Op("set", 9, 0, 77), Op("rest", 0, 0, 0), Op("take", n - 1, 0, 0), Op("drop", 1, 0, 0)} ELSE {})
-  \cup (IF n > 1 THEN {Op("set", 9, n - 1, 77)} ELSE {})
+IvecOps(c, m) == LET n == Len(c.s) IN
+     (IF n < MAXLEN THEN {Op("push", 90 + m, 0, 770 + m), Op("pushf", 90 + m, 0, 770 + m)} ELSE {})
+  \cup (IF n > 0 THEN {Op("set", 90 + m, 0, 770 + m), Op("rest", 0, 0, 0), Op("take", n - 1, 0, 0), Op("drop", 1, 0, 0)} ELSE {})
+  \cup (IF n > 1 THEN {Op("set", 90 + m, n - 1, 770 + m)} ELSE {})
   \cup (IF n + 2 <= MAXLEN THEN {Op("appR", 1, 0, 2), Op("appL", 1, 0, 0)} ELSE {})
-ListOps(c) == LET n == Len(c.s) IN
-     (IF n < MAXLEN THEN {Op("cons", 9, 0, 0), Op("pushb", 9, 0, 77)} ELSE {})
+ListOps(c, m) == LET n == Len(c.s) IN
+     (IF n < MAXLEN THEN {Op("cons", 90 + m, 0, 0), Op("pushb", 90 + m, 0, 770 + m)} ELSE {})
   \cup {Op("rev", 0, 0, 0)}
   \cup (IF n > 0 THEN {Op("cdr", 0, 0, 0), Op("rest", 0, 0, 0), Op("take", n - 1, 0, 0), Op("ldrop", 1, 0, 0), Op("ltail", 1, 0, 0)} ELSE {})
   \cup (IF n + 2 <= MAXLEN THEN {Op("appR", 1, 0, 2), Op("appL", 1, 0, 0)} ELSE {})
-StrOps(c) == LET n == Len(c.s) IN
-     (IF n < MAXLEN THEN {Op("push", 26, 0, 24)} ELSE {})
+StrOps(c, m) == LET n == Len(c.s) IN
+     (IF n < MAXLEN THEN {Op("push", 20 + (m % 6), 0, 10 + (m % 6))} ELSE {})     \* a different letter per action
   \cup {Op("up", 0, 0, 0)}
   \cup (IF n > 0 THEN {Op("sub", n - 1, 0, 0)} ELSE {})
   \cup (IF n + 2 <= MAXLEN THEN {Op("pushs", 1, 0, 2), Op("appR", 1, 0, 2), Op("appL", 1, 0, 0)} ELSE {})
-Ops(c) == CASE c.ty = "hash" -> HashOps(c) [] c.ty = "hset" -> HsetOps(c) [] c.ty = "ivec" -> IvecOps(c)
-            [] c.ty = "list" -> ListOps(c) [] c.ty = "str" -> StrOps(c)
+Ops(c, m) == CASE c.ty = "hash" -> HashOps(c, m) [] c.ty = "hset" -> HsetOps(c, m) [] c.ty = "ivec" -> IvecOps(c, m)
+               [] c.ty = "list" -> ListOps(c, m) [] c.ty = "str" -> StrOps(c, m)
 
 \* does the operation take a trailing argument (evaluated AFTER the collection operand)?
 HasArg(t, o) == CASE t = "hash" -> o \in {"ins", "rem", "unionR"}
@@ -345,7 +353,7 @@ Bases == [
 
 -----------------------------------------------------------------------------
 (* Holder kinds *)
-AllKinds == {"G", "P", "L", "M", "B", "C", "EL", "EP", "EV", "EI", "EH", "ES", "K", "WL", "WM"}
+AllKinds == {"G", "P", "L", "M", "S", "B", "C", "EL", "EP", "EV", "EI", "EH", "ES", "EM", "PR", "K", "WL", "WM"}
 Th(kind) == IF kind \in {"WL", "WM"} THEN 1 ELSE 0           \* 0: the engine thread, 1: the second thread
 SingleUse(kind) == kind \in {"M", "WM", "K"}
 Alias(v, kind, born) == [v |-> v, kind |-> kind, born |-> born, dead |-> 0, used |-> FALSE]
@@ -394,17 +402,17 @@ Heads(n) ==
         ELSE {})
 \* via "k" re-executes the binding of the result: it stays on the engine thread, and the result is not a K holder
 ViasFor(i, op, kind) == {v \in VIAS : v = "k" => (HasArg(ty, op.o) /\ Th(al[i].kind) = 0 /\ Th(kind) = 0 /\ kind # "K")}
-Tails(h) == UNION {{[h EXCEPT !.op = op, !.via = v] : v \in ViasFor(h.i, op, h.kind)} : op \in Ops(al[h.i].v)}
+Tails(h) == UNION {{[h EXCEPT !.op = op, !.via = v] : v \in ViasFor(h.i, op, h.kind)} : op \in Ops(al[h.i].v, k + 1)}
 
 \* seeded thinning: Keep(n) per mille of the heads (applied twice to the quadratically many "upd2" heads), and of
 \* the tails of every kept "upd" head
 Mx(a, b) == (a * 251 + b) % 9973
 KindIdx == [G |-> 1, P |-> 2, L |-> 3, M |-> 4, B |-> 5, C |-> 6, EL |-> 7, EP |-> 8, EV |-> 9, EI |-> 10, EH |-> 11,
-            ES |-> 12, K |-> 13, WL |-> 14, WM |-> 15]
+            ES |-> 12, K |-> 13, WL |-> 14, WM |-> 15, S |-> 16, EM |-> 17, PR |-> 18]
 KindCode(kd) == IF kd = "-" THEN 0 ELSE KindIdx[kd]
 ActCode(a) == CASE a = "base" -> 1 [] a = "share" -> 2 [] a = "upd" -> 3 [] a = "upd2" -> 4 [] a = "reobs" -> 5
 XferCode(x) == CASE x = "-" -> 0 [] x = "chan" -> 1 [] x = "capt" -> 2
-ViaCode(v) == CASE v = "-" -> 0 [] v = "d" -> 1 [] v = "f" -> 2 [] v = "g" -> 3 [] v = "k" -> 4
+ViaCode(v) == CASE v = "-" -> 0 [] v = "d" -> 1 [] v = "f" -> 2 [] v = "g" -> 3 [] v = "k" -> 4 [] v = "a" -> 5 [] v = "m" -> 6
 OpIdx == [ins |-> 1, rem |-> 2, unionR |-> 3, unionL |-> 4, clear |-> 5, push |-> 6, pushf |-> 7, set |-> 8, rest |-> 9,
           take |-> 10, drop |-> 11, appR |-> 12, appL |-> 13, cons |-> 14, pushb |-> 15, cdr |-> 16, rev |-> 17, ldrop |-> 18,
           ltail |-> 19, pushs |-> 20, up |-> 21, sub |-> 22]
@@ -526,7 +534,7 @@ ObsAfter(n) == LET ids == SelectSeq([j \in 1..Len(al) |-> j],
                Force([x \in 1..Len(ids) |-> [id |-> ids[x], exp |-> ObsE(al[ids[x]].v)]])
 \* observations made INSIDE a step (via "k": first pass, second pass; via "g": the parameter after the update; reobs)
 Pre(h) == CASE h.a = "upd" /\ h.via = "k" -> <<Obs(Step(al[h.i].v, h.op, h.op.alt)), Obs(Step(al[h.i].v, h.op, h.op.a))>>
-            [] h.a = "upd" /\ h.via = "g" -> <<Obs(al[h.i].v)>>
+            [] h.a = "upd" /\ h.via \in {"g", "a", "m"} -> <<Obs(al[h.i].v)>>
             [] h.a = "reobs"              -> <<Obs(al[h.i].v)>>
             [] OTHER                      -> << >>
 ActOut(h) == [a |-> h.a, i |-> h.i, i2 |-> h.i2, j |-> h.j, kind |-> h.kind, via |-> h.via, xfer |-> h.xfer,
@@ -548,7 +556,12 @@ LoopCase ==
   [fam |-> "loop", ty |-> ty, prog |-> lp.prog, n |-> lp.n, every |-> lp.every, style |-> lp.style,
    src |-> Bases[ty][lp.b].src, tpl |-> LTpl(ty, lp.prog),
    saved |-> Force([x \in 1..Len(lp.saved) |-> [i |-> lp.saved[x].i, q |-> ObsQ(lp.saved[x].v), exp |-> ObsE(lp.saved[x].v)]]),
-   final |-> Obs(lp.acc)]
+   final |-> Obs(lp.acc),
+   \* afterwards every saved version (and the final one) is updated once more, with iteration numbers 1000 + x / 2000:
+   \* the forks are new values, the saved versions are observed again
+   forks |-> Force([x \in 1..Len(lp.saved) |-> [i |-> 1000 + x, q |-> ObsQ(LStep(lp.saved[x].v, lp.prog, 1000 + x)),
+                                                 exp |-> ObsE(LStep(lp.saved[x].v, lp.prog, 1000 + x))]]),
+   forkfinal |-> Obs(LStep(lp.acc, lp.prog, 2000))]
 
 Terminal == IF fam = "loop" THEN lp.i = lp.n ELSE k = DEPTH
 Emit == Terminal => PrintT(<<"REPLAY", ToJson(IF fam = "alias" THEN AliasCase ELSE LoopCase)>>)
